@@ -146,12 +146,28 @@ def run_trajectories(entries_json, seeds):
     for ej in entries_json:
         spec, binding = entry_from_json(ej)
         ctx = make_ctx(spec, binding)
-        res = explore(ctx, [], max_states=200)
-        hists = [ctx.history_of(k) for k in list(res["seen"].keys())[:60]]
+        big = ctx.layout.nhosts > 8
+        res = explore(ctx, [], max_states=(40 if big else 200))
+        hists = [ctx.history_of(k) for k in list(res["seen"].keys())[: (25 if big else 60)]]
         n_act = len(ctx.actions) - 1
         stoch = [i for i, m in enumerate(ctx.mactions[:n_act]) if m and 0.0 < m["prob"] < 1.0]
-        base = (stoch + list(range(n_act)))[:6]
+        # one exploit per subnet (first host) as well: actions that are refused right after a reset unless the
+        # environment remembers something from an earlier episode
+        per_subnet = {}
+        for i, m in enumerate(ctx.mactions[:n_act]):
+            if m and m["type"] == "exploit" and m["target"][1] == 0:
+                per_subnet.setdefault(m["target"][0], i)
+        base = list(dict.fromkeys(list(per_subnet.values())[:5] + stoch[:3] + list(range(n_act))[:2]))[:8]
         hists += [[[a, "r"]] for a in base] + [[[a, "r"], [b, "r"]] for a in base for b in base]
+        # every BFS-tree history extended by one more exploit on the first host of each subnet (mostly refused:
+        # what decides the refusal must be the state, not what the environment remembers from earlier episodes)
+        probes = [i for i, m in enumerate(ctx.mactions[:n_act]) if m and m["type"] == "exploit" and m["target"][1] == 0][:30]
+        tree = [h for h in hists[: (25 if big else 20)] if h and all(x[1] != "r" for x in h)]
+        hists += [h + [[a, "r"]] for h in tree for a in probes]
+        # a FRESH environment runs the trajectories (the one used for the exploration above has already executed
+        # thousands of generative steps)
+        from nasim.envs import NASimEnv as _Env
+        tenv = _Env(ctx.scenario, fully_obs=False, flat_actions=True, flat_obs=True)
         ctx.seam.uninstall()
         try:
             life = list(seeds) + list(seeds)[:2]          # e.g. 0,1,2,0,1: the same seed again later in the env's life
@@ -160,9 +176,9 @@ def run_trajectories(entries_json, seeds):
                 np.random.seed(seed)
                 n_chance = 0
                 for hist in hists:
-                    ctx.env.reset()
+                    tenv.reset()
                     for a_idx, _ in hist:
-                        o, r, d, t, info = ctx.env.step(int(a_idx))
+                        o, r, d, t, info = tenv.step(int(a_idx))
                         h.update(np.asarray(o).tobytes())
                         h.update(repr((float(r), bool(d), bool(t), sorted(_info_canon(info).items()))).encode())
                         if ctx.mactions[a_idx] and 0.0 < ctx.mactions[a_idx]["prob"] < 1.0:
@@ -291,6 +307,10 @@ def run(pid, tier):
     fam = [e for e in fam if any(0 < float(x["prob"]) < 1 for x in list(e[0].get("exploits", {}).values()) + list(e[0].get("privescs", {}).values()))]
     fam = fam[:: max(1, len(fam) // (16 if tier == "quick" else 48))]
     ej = [entry_to_json(e) for e in fam]
+    # scenarios above the small-scope bound (11-23 hosts): what an environment remembers across reset() shows here
+    from .family import shipped_spec
+    ej.append(entry_to_json((shipped_spec("medium"), "shipped")))
+    ej.append({"spec": {"name": "medium-gen-s1", "gen": ["medium-gen", 1]}, "binding": "generated"})
     tw = Tripwire()
     try:
         first = run_trajectories(ej, [0, 1, 2])
